@@ -525,6 +525,16 @@ func (g *Gen) opMinterBurst() {
 		g.nextEvt["minter"]++
 		g.voteAll("minter", fmt.Sprintf("ttc %d %s %s %s %s %s %s %d 0x%s", ev, t.ext, amt, fee, g.pick(g.recips), dst.chain, g.pick(g.recips), g.eventHeight("minter"), g.nextTag()))
 	}
+	if g.rng.Intn(2) == 0 {
+		// the batch mixes origins: transfers sent on the hub itself (their fee cannot be refunded to Minter) with
+		// much higher fees travel with the Minter-origin ones
+		for k := 1 + g.rng.Intn(3); k > 0; k-- {
+			amt := new(big.Int).Mul(big.NewInt(int64(1000+g.rng.Intn(9000))), big.NewInt(1000000000000000))
+			fee := new(big.Int).Mul(big.NewInt(int64([]int{100, 1000, 5000}[g.rng.Intn(3)])), big.NewInt(100000000000000))
+			g.do(fmt.Sprintf("send %s %s %s %s %s %s %s", g.pick(g.accounts), dst.chain, g.pick(g.recips), dst.denom, amt, fee, g.nextTag()))
+		}
+		g.stats["ledger:batch-mixes-hub-and-minter-origin"]++
+	}
 	g.block()
 	g.do(fmt.Sprintf("reqbatch %s %s", dst.chain, dst.denom))
 	g.block()
@@ -610,6 +620,26 @@ func (g *Gen) runLedger(nops int) {
 	}
 	g.do(fmt.Sprintf("block %d %d", g.height, g.time))
 	g.do("begin")
+	if g.mon != nil && g.mon.prop == "C10" && g.rng.Intn(4) == 0 {
+		// a busy chain: two assets of one chain each have about a batch-full (100) of transfers waiting when the
+		// next automatic batching round comes
+		chain := g.pick([]string{"ethereum", "bsc", "minter"})
+		if toks := g.tokensOn(chain); len(toks) >= 2 {
+			for ti, t := range toks[:2] {
+				n := []int{100, 100, 99, 101, 130}[g.rng.Intn(5)]
+				if ti == 1 {
+					n = 101 + g.rng.Intn(30)
+				}
+				g.do(fmt.Sprintf("fund %s %s 1000000000000000000000000", g.accounts[0], t.denom))
+				for j := 0; j < n; j++ {
+					g.do(fmt.Sprintf("send %s %s %s %s %d %d %s", g.accounts[0], chain, g.pick(g.recips), t.denom, 1000000000000+g.rng.Intn(1000000), g.rng.Intn(5)*1000000000, g.nextTag()))
+				}
+			}
+			g.stats["ledger:two-assets-with-a-full-batch-each"]++
+			g.block()
+			g.block()
+		}
+	}
 	for i := 0; i < nops; i++ {
 		switch x := g.rng.Intn(100); {
 		case x < 30:
@@ -965,6 +995,42 @@ func (g *Gen) runVotes(nops int) {
 			g.do(g.stakingLine())
 		case x < 82:
 			g.do(fmt.Sprintf("q_lastnonce %s %s", g.pick([]string{"ethereum", "minter"}), g.vals[r.Intn(len(g.vals))].addr))
+		case x < 86:
+			// a validator that joined late (an event was applied without its vote) re-submits that applied claim and
+			// then its own latest claims again: none of this may be counted
+			chain := g.pick([]string{"ethereum", "minter"})
+			recs := g.env.VoteRecords(g.env.ctx, chain)
+		late:
+			for _, v := range g.vals {
+				last, ok := voted[chain+"/"+v.addr]
+				if !ok || !v.bonded {
+					continue
+				}
+				for _, rec := range recs {
+					if !rec.rec.Accepted || rec.nonce >= last {
+						continue
+					}
+					listed := false
+					for _, x := range rec.rec.Votes {
+						if g.env.toHexAcc(x) == v.addr {
+							listed = true
+						}
+					}
+					if listed {
+						continue
+					}
+					g.stats["votes:late-validator-replays-applied-claim"]++
+					for _, e := range cand[fmt.Sprintf("%s/%d", chain, rec.nonce)] {
+						g.do(fmt.Sprintf("vote %s %s %s", chain, v.addr, e))
+					}
+					for n := rec.nonce + 1; n <= last; n++ {
+						for _, e := range cand[fmt.Sprintf("%s/%d", chain, n)] {
+							g.do(fmt.Sprintf("vote %s %s %s", chain, v.addr, e))
+						}
+					}
+					break late
+				}
+			}
 		default:
 			g.do("end")
 			votesDumps()
